@@ -8,6 +8,8 @@ a semantics-preserving rewrite of the syntax tree (node positions are kept, so r
   K2 branches      `if not C: X else: Y` -> `if C: Y else: X` (a real else, no elif chain, no walrus in C);
                    `X if not C else Y` -> `Y if C else X`
   K6 cond. assign  `if C: x = A else: x = B` -> `x = A if C else B`
+  K8 arguments     `f(a, y=b)` -> `f(a, b)` for package functions called by plain name or through self./cls.
+                   when the keywords continue the declared parameter order
   K3 temp return   `t = E` immediately followed by `return t`, t used nowhere else  ->  `return E`
   K4 local names   consistent renaming of function-local names back to the names they have in the reference table
                    (sa/local_names.json: for every function the sequence of its bindings, each described WITHOUT
@@ -274,6 +276,76 @@ def _inline_single_use_temps(fn: ast.AST) -> int:
             for h in node.handlers:
                 h.body = block(h.body)
     return count[0]
+
+
+# ------------------------------------------------------------------ K8: keyword -> positional for certain callees
+_DEFS: Optional[dict] = None
+
+
+def _package_defs() -> dict:
+    """name -> parameter list, for function names defined exactly once in the package under analysis
+    (click commands and properties excluded)."""
+    global _DEFS
+    if _DEFS is not None:
+        return _DEFS
+    from .model import REPO
+    pkg = Path(REPO) / "src" / "reuse"
+    found: dict[str, list] = {}
+    for path in sorted(pkg.rglob("*.py")):
+        try:
+            tree = ast.parse(path.read_text(encoding="utf-8"))
+        except SyntaxError:
+            continue
+        meth = set()
+        for c in ast.walk(tree):
+            if isinstance(c, ast.ClassDef):
+                for m in c.body:
+                    if isinstance(m, (ast.FunctionDef, ast.AsyncFunctionDef)):
+                        meth.add(id(m))
+        for n in ast.walk(tree):
+            if isinstance(n, (ast.FunctionDef, ast.AsyncFunctionDef)):
+                found.setdefault(n.name, []).append((n, id(n) in meth))
+    out = {}
+    for name, lst in found.items():
+        if len(lst) != 1 or name.startswith("__"):
+            continue
+        d, is_method = lst[0]
+        if d.args.vararg or d.args.posonlyargs:
+            continue
+        decs = {ast.unparse(x).split("(")[0].split(".")[-1] for x in d.decorator_list}
+        if decs & {"command", "group", "option", "argument", "pass_obj", "pass_context", "property"}:
+            continue
+        params = [p.arg for p in d.args.args]
+        out[name] = (params[1:] if is_method and "staticmethod" not in decs else params, is_method)
+    _DEFS = out
+    return out
+
+
+def _positionalise(tree: ast.AST) -> None:
+    """`f(a, y=b)` -> `f(a, b)` when f is certainly a package function (plain name, or self./cls. method), its name is
+    defined once, and the keywords continue the positional parameters in exactly their declared order."""
+    defs = _package_defs()
+    for c in ast.walk(tree):
+        if not isinstance(c, ast.Call) or not c.keywords or any(isinstance(a, ast.Starred) for a in c.args):
+            continue
+        if isinstance(c.func, ast.Name):
+            name, via_obj = c.func.id, False
+        elif isinstance(c.func, ast.Attribute) and isinstance(c.func.value, ast.Name) and c.func.value.id in ("self", "cls"):
+            name, via_obj = c.func.attr, True
+        else:
+            continue
+        ent = defs.get(name)
+        if ent is None:
+            continue
+        params, is_method = ent
+        if is_method != via_obj:
+            continue
+        i = len(c.args)
+        moved = 0
+        while c.keywords and i < len(params) and c.keywords[0].arg == params[i]:
+            c.args.append(c.keywords.pop(0).value)
+            i += 1
+            moved += 1
 
 
 # ------------------------------------------------------------------ K4
@@ -578,6 +650,7 @@ def functions_of(tree: ast.Module, modname: str):
 
 def canonicalise(tree: ast.Module, modname: str, log: Optional[list] = None) -> ast.Module:
     tree = _Shape().visit(tree)
+    _positionalise(tree)
     table = ref_table()
     fns = list(functions_of(tree, modname))
     # innermost first, so that a nested function is settled before its parent is renamed
@@ -605,6 +678,7 @@ def make_table(repo_src: Path) -> dict:
             parts = parts[:-1]
         modname = ".".join(parts)
         tree = _Shape().visit(ast.parse(path.read_text(encoding="utf-8")))
+        _positionalise(tree)
         for q, fn in functions_of(tree, modname):
             _inline_temp_returns(fn)
             if not _NO_K7:
